@@ -118,21 +118,21 @@ func (l *evLog) Tail(n int) string {
 
 // Rule fires Do when its point/side/arg/occurrence matches.
 type Rule struct {
-	Point  string
-	Side   int    // 0 any, 1 client only, 2 server only
-	Arg    string // "" any, else must equal fmt.Sprint(arg)
-	Occ    int    // 0 every occurrence, k>0 only the k-th matching occurrence
-	Do     func(ev jsonrpc.VerifEvent)
-	count  int64
-	fired  int64
+	Point string
+	Side  int    // 0 any, 1 client only, 2 server only
+	Arg   string // "" any, else must equal fmt.Sprint(arg)
+	Occ   int    // 0 every occurrence, k>0 only the k-th matching occurrence
+	Do    func(ev jsonrpc.VerifEvent)
+	count int64
+	fired int64
 }
 
 func (r *Rule) Fired() int { return int(atomic.LoadInt64(&r.fired)) }
 
 type Policy struct {
 	Seed     int64
-	NoiseP   float64       // probability of a noise action at each firing
-	MaxDelay time.Duration // upper bound of noise sleeps
+	NoiseP   float64                  // probability of a noise action at each firing
+	MaxDelay time.Duration            // upper bound of noise sleeps
 	Skew     map[string]time.Duration // per point-prefix fixed delay (role skew)
 	Rules    []*Rule
 	NoLog    bool
